@@ -160,6 +160,16 @@ def build_object(name):
         las.well["STOP"].value = 1001.0
         las.well["STEP"].value = 0.5
         return las
+    if name == "read-then-rows-trimmed":
+        # read from a file (so an index snapshot exists), then the first rows are dropped: STOP still agrees with the data,
+        # STRT does not - write() must notice the changed index on the original and on every copy alike
+        text = "\n".join(["~Version", " VERS. 2.0 : v", " WRAP. NO : w", "~Well", " STRT.M 1.0 : s", " STOP.M 5.0 : e", " STEP.M 1.0 : i",
+                          " NULL. -999.25 : n", "~Curves", " DEPT.M : depth", " GR.GAPI : gamma", "~A",
+                          " 1.0 10.0", " 2.0 20.0", " 3.0 30.0", " 4.0 40.0", " 5.0 50.0", ""])
+        las = lasio.read(text)
+        for cv_ in list.__iter__(las.curves):
+            cv_.data = cv_.data[2:]
+        return las
     if name.startswith("read-then-case-variant-duplicates:"):
         # a case-insensitive section (read with upper/lower) that later receives case variants of a duplicated name
         case = name.split(":")[1]
@@ -176,7 +186,7 @@ def build_object(name):
 
 
 BUILT = ["api-dup-blank-all-sections", "api-unique-with-str-curve", "api-stale-suffix-after-delete", "api-default-empty",
-         "api-consistent-strt-stop-step", "read-then-case-variant-duplicates:upper", "read-then-case-variant-duplicates:lower",
+         "api-consistent-strt-stop-step", "read-then-rows-trimmed", "read-then-case-variant-duplicates:upper", "read-then-case-variant-duplicates:lower",
          "read-then-case-variant-duplicates:preserve"]
 
 STANDALONE = {
